@@ -69,12 +69,56 @@ func (graph *Graph) parallelStabilize(ctx context.Context) (err error) {
 	done := ctx.Done()
 
 	var iter recomputeHeapListIter
+	var block, rest []INode
 	for graph.recomputeHeap.len() > 0 {
 		if err = contextCanceled(ctx, done); err != nil {
 			break
 		}
+		// The whole height block is taken off the heap before any of it runs, and the nodes
+		// that rewrite graph structure (bind lhs-change nodes) run first, one at a time.
+		//
+		// A bind swapping its right-hand side can tear down nodes that sit in this very
+		// block -- an outer node that only the discarded subgraph was reading, say. While
+		// the block was handed out node by node to concurrent workers, such a node was
+		// recomputed anyway, after or even while it was being zeroed: it kept stamps that
+		// made it look computed when it was next needed (stale observer values), a torn
+		// down lhs-change node tried to relink a bind that no longer had a height (index
+		// out of range [-1] inside a worker's recover, which ends the process), and the
+		// teardown raced with the recompute. Once the structural nodes are done nothing in
+		// the block changes membership any more, so the rest can be filtered and run
+		// concurrently.
 		graph.recomputeHeap.setIterToMinHeight(&iter)
-		err = parallelBatch(ctx, parallelRecomputeNode, iter.Next, graph.parallelism)
+		block = block[:0]
+		for n, ok := iter.Next(); ok; n, ok = iter.Next() {
+			block = append(block, n)
+		}
+		rest = rest[:0]
+		for _, n := range block {
+			if !nodeMutatesStructure(n) {
+				rest = append(rest, n)
+				continue
+			}
+			if n.Node().height == HeightUnset {
+				continue // torn down by an earlier node of this block
+			}
+			if nodeErr := parallelRecomputeNode(ctx, n); nodeErr != nil && err == nil {
+				err = nodeErr
+			}
+		}
+		index := 0
+		nextInGraph := func() (INode, bool) {
+			for index < len(rest) {
+				n := rest[index]
+				index++
+				if n.Node().height != HeightUnset {
+					return n, true
+				}
+			}
+			return nil, false
+		}
+		if batchErr := parallelBatch(ctx, parallelRecomputeNode, nextInGraph, graph.parallelism); batchErr != nil && err == nil {
+			err = batchErr
+		}
 		if err != nil {
 			break
 		}
